@@ -60,16 +60,17 @@ Definition slin (tbl : list (nat * sdef)) (n : nat) : option (list nat) := lin (
 Definition class_slots (tbl : list (nat * sdef)) (c : nat) : list slotdef :=
   match lookup tbl c with Some d => d_slots d | None => [] end.
 
-(* the definitions of slot s along the precedence list P, most specific first *)
-Definition eff_defs (tbl : list (nat * sdef)) (P : list nat) (s : nat) : list slotdef :=
-  flat_map (fun c => filter (fun sd => Nat.eqb (sd_name sd) s) (class_slots tbl c)) P.
+(* the definitions of slot s along the precedence list P, most specific first; cs gives the slot
+   specifiers of the current definition of each class *)
+Definition eff_defs (cs : nat -> list slotdef) (P : list nat) (s : nat) : list slotdef :=
+  flat_map (fun c => filter (fun sd => Nat.eqb (sd_name sd) s) (cs c)) P.
 Definition first_initform (defs : list slotdef) : option Z :=
   match flat_map (fun sd => match sd_initform sd with Some v => [v] | None => [] end) defs with
   | v :: _ => Some v
   | [] => None
   end.
-Definition slot_S (tbl : list (nat * sdef)) (P : list nat) (args : list (nat * Z)) (s : nat) : slotst :=
-  match eff_defs tbl P s with
+Definition slot_S (cs : nat -> list slotdef) (P : list nat) (args : list (nat * Z)) (s : nat) : slotst :=
+  match eff_defs cs P s with
   | [] => SMissing
   | defs =>
       match find (fun kv => memb (fst kv) (flat_map sd_initargs defs)) args with
@@ -77,15 +78,15 @@ Definition slot_S (tbl : list (nat * sdef)) (P : list nat) (args : list (nat * Z
       | None => match first_initform defs with Some v => SVal v | None => SUnbound end
       end
   end.
-Definition all_defs (tbl : list (nat * sdef)) (P : list nat) : list slotdef := flat_map (class_slots tbl) P.
-Definition valid_args (tbl : list (nat * sdef)) (P : list nat) (args : list (nat * Z)) : bool :=
-  forallb (fun kv => memb (fst kv) (flat_map sd_initargs (all_defs tbl P))) args.
-Definition vars_S (tbl : list (nat * sdef)) (P : list nat) (args : list (nat * Z)) : varmap :=
-  flat_map (fun s => match slot_S tbl P args s with
+Definition all_defs (cs : nat -> list slotdef) (P : list nat) : list slotdef := flat_map cs P.
+Definition valid_args (cs : nat -> list slotdef) (P : list nat) (args : list (nat * Z)) : bool :=
+  forallb (fun kv => memb (fst kv) (flat_map sd_initargs (all_defs cs P))) args.
+Definition vars_S (cs : nat -> list slotdef) (P : list nat) (args : list (nat * Z)) : varmap :=
+  flat_map (fun s => match slot_S cs P args s with
                      | SMissing => []
                      | SUnbound => [(s, None)]
                      | SVal v => [(s, Some v)]
-                     end) (dedup (map sd_name (all_defs tbl P))).
+                     end) (dedup (map sd_name (all_defs cs P))).
 
 Definition acc_flag (k : nat) (sd : slotdef) : bool :=
   if Nat.eqb k KR then sd_reader sd
@@ -93,8 +94,8 @@ Definition acc_flag (k : nat) (sd : slotdef) : bool :=
   else if Nat.eqb k KAR || Nat.eqb k KAW then sd_accessor sd
   else false.
 (* some class of the precedence list declares an accessor of kind k for slot s *)
-Definition declared (tbl : list (nat * sdef)) (P : list nat) (k s : nat) : bool :=
-  existsb (fun sd => Nat.eqb (sd_name sd) s && acc_flag k sd) (all_defs tbl P).
+Definition declared (cs : nat -> list slotdef) (P : list nat) (k s : nat) : bool :=
+  existsb (fun sd => Nat.eqb (sd_name sd) s && acc_flag k sd) (all_defs cs P).
 
 Definition sset_inst (sw : sworld) (i : nat) (si : sinst) : sworld :=
   mkSW (s_tbl sw) (set_nth (s_insts sw) i si) (s_meths sw).
@@ -126,10 +127,10 @@ Definition sstep (sw : sworld) (o : op) : sworld * option obs :=
           | None => (sw, Some OErr)
           | Some l =>
               let P := n :: l in
-              if valid_args (s_tbl sw) P args then
-                let vs := vars_S (s_tbl sw) P args in
+              if valid_args (class_slots (s_tbl sw)) P args then
+                let vs := vars_S (class_slots (s_tbl sw)) P args in
                 (mkSW (s_tbl sw) (s_insts sw ++ [mkSI n false vs]) (s_meths sw),
-                 Some (OInst (map (slot_S (s_tbl sw) P args) (seq 0 NS))))
+                 Some (OInst (map (slot_S (class_slots (s_tbl sw)) P args) (seq 0 NS))))
               else (sw, Some OErr)
           end
       end
@@ -166,7 +167,7 @@ Definition sstep (sw : sworld) (o : op) : sworld * option obs :=
           match s_user_cpl sw si with
           | None => (sw, None)
           | Some P =>
-              if declared (s_tbl sw) P k s then
+              if declared (class_slots (s_tbl sw)) P k s then
                 match lookup (si_vars si) s with
                 | None => (sw, None)
                 | Some x =>
@@ -282,4 +283,18 @@ Definition g_step (w : world) (o : op) (rorder corder : list nat) : bool :=
   | ODispatch i => current w i
   | ODefMethod c => Nat.ltb c SO
   | _ => true
+  end.
+
+(* ---- histories ------------------------------------------------------------------------------- *)
+(* a step of a history: the operation and the two iteration orders Go happened to use *)
+Definition hstep := (op * list nat * list nat)%type.
+Fixpoint run (w : world) (h : list hstep) : world :=
+  match h with
+  | [] => w
+  | (o, ro, co) :: r => run (fst (step w o ro co)) r
+  end.
+Fixpoint guard_ops (w : world) (h : list hstep) : bool :=
+  match h with
+  | [] => true
+  | (o, ro, co) :: r => g_step w o ro co && guard_ops (fst (step w o ro co)) r
   end.
